@@ -29,12 +29,12 @@ REQ = ("From Coq Require Import List NArith Bool.\nFrom Delb.Base Require Import
        "      if ((N.eqb a 0 || N.eqb a a') && N.eqb s s')%bool then c11_first_fail r r' (i + 1)%N else i\n"
        "  | _, _ => i\n  end.\n")
 KINDS = ["plain", "created-ns", "parsed-default", "parsed-prefixed", "parsed-default-other", "moved"]
-EXTRA_KINDS = ["parsed-collision"]
+EXTRA_KINDS = ["parsed-collision", "parsed-double"]
 NS, NAMES = ["", "d", "e"], ["k", "j", "h"]
 MOD = 2305843009213693951
 EXN = {"InvalidOperation": 0, "ValueError": 1, "TypeError": 2, "IndexError": 3, "AssertionError": 5, "AttributeError": 6}
 # run_class of AttrEnc.v -> cls of the open findings (class 3, alias rename, is inside the guards since fix 159ed68)
-CLS = {2: "second-live-view"}      # class 1 (store holds both name and {d}name) is not generated; 3 unused
+CLS = {1: "double-entry", 2: "second-live-view"}      # run_class of AttrEnc.v -> cls of the open findings; 3 unused
 OBJ_OPS = {"value": None, "setvalue": "value", "setlocal": "local_name", "setns": "namespace"}
 MUTATORS = ("set", "nset", "del", "ndel", "pop", "update", "setvalue", "setlocal", "setns")
 C1 = {"get": "OGet", "del": "ODel", "contains": "OContains", "pop": "OPop", "nget": "ONodeGet", "ndel": "ONodeDel",
@@ -150,6 +150,8 @@ def mknode(kind):
         r.append_children(n)
     elif kind == "parsed-collision":
         n = Document('<x xmlns="d" xmlns:p="d" p:k="v"/>').root
+    elif kind == "parsed-double":      # two XML attributes that delb presents under the one key (d, k)
+        n = Document('<x xmlns="d" xmlns:p="d" k="1" p:k="2"/>').root
     else:
         raise ValueError(kind)
     return n, [n, n.document, n.parent]
@@ -506,7 +508,7 @@ def check_eq(ctx, pairs):
         if model != ans:
             ctx.mismatch("attrs_eq vs TagAttributes.__eq__", {"case": case, "impl": ans, "model": model})
         if ans != [1, deq]:
-            cls = None
+            cls = "double-entry" if wf == 0 else None
             tally(ctx, "outcome:eq-fails/" + str(cls))
             ctx.fail("== answers %r but equality of the presented dictionaries is %r" % (ans, bool(deq)),
                      dict(case, cls=cls, impl_answer=ans), classify)
@@ -531,7 +533,7 @@ def witness_recs(ctx, witness_fails):
 
 
 def run(ctx, args):
-    ctx.regen(["GenWs.v", "GenAttr.v"])
+    ctx.regen(["GenWs.v", "GenAttr.v", "GenAttrKey.v"])
     ctx.build("Props/C11.vo")
     sys.stderr.write("c11: regen+build %.1f s\n" % (time.time() - ctx.t0))
     ctx.notes.append("AttrEnc.cks form: %s" % calibrate(ctx))
@@ -558,7 +560,7 @@ def run(ctx, args):
     with no_gc():
         recs += [run_seq(kind, ops=ops) for kind, ops in fixed_cases()]
     plan = [(kind, mode) for mode in ("free", "guarded") for kind in KINDS + EXTRA_KINDS
-            if mode == "free" or kind not in ("moved", "parsed-collision")]
+            if mode == "free" or kind != "parsed-double"]
     todo = [(kind, mode) for kind, mode in plan for _ in range(per if kind in KINDS else max(per // 5, 1))]
     while todo or recs:
         with no_gc():
